@@ -24,6 +24,10 @@ ANY_DEFINED_BY = [
  # character string values with embedded quotation marks (printed doubled), incl. the string that is just one quotation mark
  ("cstring-quotes", 'M DEFINITIONS ::= BEGIN A ::= IA5String (FROM("a" | """" | "z")) B ::= SEQUENCE { s IA5String DEFAULT """", t UTF8String DEFAULT "a""b", '
                     'u IA5String DEFAULT """""" } q IA5String ::= """" r IA5String ::= "x""" w IA5String ::= """y" C ::= IA5String (""""|"ab""cd") END'),
+ # Tuple / Quadruple character values in permitted alphabets (rows and cells >= 128); no plain number may follow a quadruple
+ # in the same file (finding F232: the lexer leaves errno = ERANGE behind)
+ ("quadruple-alphabets", "M DEFINITIONS ::= BEGIN A ::= BMPString (FROM({0,0,172,0}..{0,0,215,163})) B ::= UniversalString (FROM({0,1,244,0}..{0,1,246,79})) "
+                         "C ::= BMPString (FROM({0,0,255,253} | {0,0,128,0})) D ::= IA5String (FROM({1,0}..{7,15})) END"),
  ("value-notation", "M DEFINITIONS ::= BEGIN i INTEGER ::= -5 b BOOLEAN ::= TRUE o OCTET STRING ::= 'AB01'H s BIT STRING ::= '0101'B "
                     "id OBJECT IDENTIFIER ::= { 1 2 840 } T ::= INTEGER (i..10) U ::= SEQUENCE { a INTEGER DEFAULT i, f BOOLEAN DEFAULT b } END"),
 ]
@@ -340,6 +344,15 @@ def run(ctx):
             e2 = E(asn1c, w2)
             if cgen.died(e2) or e2["rc"] != 0: fail("E-text-rejected", f"{tag}: " + e2["err"].strip().split("\n")[0][:160], rp); continue
             if e2["out"] != e1["out"]: fail("E-not-fixpoint", f"{tag}: " + first_diff(e1["out"], e2["out"]), rp); continue
+            # same generated code from the printed text (none of the directed modules has parameterized types)
+            da = os.path.join(root, "dir-" + tag + "-a"); db = os.path.join(root, "dir-" + tag + "-b"); os.makedirs(da); os.makedirs(db)
+            open(os.path.join(da, "module.asn1"), "w").write(text); open(os.path.join(db, "module.asn1"), "w").write(e1["out"])
+            ra, ta = compile_in(asn1c, da, ["module.asn1"], ["-fcompound-names"])
+            rb, tb = compile_in(asn1c, db, ["module.asn1"], ["-fcompound-names"])
+            if ra["rc"] != rb["rc"]: fail("printed-text-different-verdict", f"{tag}: rc {ra['rc']} vs {rb['rc']}", rp); continue
+            if ra["rc"] == 0:
+                dd = cgen.diff_trees(ta, tb)
+                if dd: fail("printed-text-different-code", f"{tag}: " + " ".join(dd[:6]), rp); continue
             nany += 1; ctx.count_nontrivial(("any-defined-by", tag))
         ctx.cov["predicate"]["any_defined_by"] = {"modules": len(ANY_DEFINED_BY), "fixpoint": nany}
     finally:
